@@ -24,9 +24,14 @@ func VerifC09_CloseMessageKind() {
 	if withErr {
 		err = f.m.CloseDataTransferChannelWithError(context.Background(), chid, zz.Error("cherr"))
 	} else {
-		err = f.m.CloseDataTransferChannel(context.Background(), chid)
+		// a call-scoped context: it ends as soon as the call has returned, while the cancel
+		// message is still being sent in the background
+		ctx, cancel := context.WithCancel(context.Background())
+		err = f.m.CloseDataTransferChannel(ctx, chid)
+		cancel()
 	}
 	zz.Settle() // the user close sends its cancel message asynchronously
+	zz.Assert(f.net.CtxDead == 0, "the cancel notification does not die with the caller's context")
 	zz.Assert(err == nil, "close returns without error")
 	zz.Assert(f.tr.countFor("close", chid) == 1, "the transport channel is closed once")
 	zz.Assert(len(f.net.Sent)+f.net.Failed == 1, "exactly one cancel message is attempted")
@@ -69,3 +74,7 @@ func VerifC09_ReceiverErrorCloses() {
 	zz.Assert(f.tr.countFor("cleanup", chid) == 1, "and releases the transport exactly once")
 	zz.Reach("rejected")
 }
+
+// VerifC09_CleanupFinishesOnRestart: a channel persisted while cleaning up settles when restarted
+// (same body as VerifC10_CleanupOnly; "always settles" is C09's clause too).
+func VerifC09_CleanupFinishesOnRestart() { VerifC10_CleanupOnly() }
